@@ -7,7 +7,12 @@ open KinModel.Drv KinModel.LoadSafety KinModel.LoadDoc
 partial def conv : Json → JV
   | .null => .null
   | .bool b => .bool b
-  | .num n => .num (if n.mantissa == 0 then "0" else "nz")
+  | .num n =>
+    -- a number beyond float64 makes `json.Unmarshal` fail; the YAML fallback of `unmarshal` then reads it as a
+    -- string where a typed member is decoded (observed: `$ref: 1e400` of a wrapper becomes a reference text) and
+    -- leaves it a number inside extension members (`JV.refText?`, `JV.plain`)
+    if (toString n.mantissa.natAbs).length > n.exponent + 309 then .num "inf"
+    else .num (if n.mantissa == 0 then "0" else "nz")
   | .str s => .str s
   | .arr a => .arr (a.toList.map conv)
   | .obj kvs => .obj (kvs.foldl (fun acc k v => acc ++ [(k, conv v)]) [])
@@ -42,43 +47,25 @@ def handle (j : Json) : Json :=
       jobj [("model", jobj [("load", Json.str "not-an-object"), ("abnormal", jstrs [])]), ("spec", jobj [("abnormal", jstrs [])]),
             ("excl", Json.arr #[]), ("branches", jstrs ["doc.nonobject"])]
     else
-    let b := build ds
-    let ps := docPositions root
-    let load := b.load
+    let b := build codeCfg ds
+    let o := outcome codeCfg ds
+    let load := o.load
     let refs := b.refs
-    let loadPanics := match load with | .panic _ => true | _ => false
-    let cKind := kindClash b
-    let cNil := nilTarget b
-    let cDrill := drillNil b
-    let cEnc := encodingHeader ps
-    let cUnres := unresolved b load
-    let cUnwalked := unwalkedRef b.roots ps
-    let cNullW := nullWrapper ps
-    let cNullM := nullMember ps
-    let cEmpty := emptyCycle b ps
-    let cComp := compositionCycle b ps
-    let cCb := callbackCycle b
-    let excl :=
-      (if cKind || (match load with | .panic .assertKind => true | _ => false) then ["KindClash"] else []) ++
-      (if cNil || (match load with | .panic .typedNil => true | _ => false) then ["NilTarget"] else []) ++
-      (if cDrill || (match load with | .panic .drill => true | _ => false) then ["DrillNil"] else []) ++
-      (if cEnc then ["EncodingHeaderRef"] else []) ++ (if cUnres then ["Unresolved"] else []) ++ (if cUnwalked then ["UnwalkedRef"] else []) ++
-      (if cNullW then ["NullWrapper"] else []) ++ (if cNullM then ["NullMember"] else []) ++
-      (if cEmpty then ["EmptyCycle"] else []) ++ (if cComp then ["CompositionCycle"] else []) ++
-      (if cCb then ["CallbackCycle"] else [])
-    let abnormal := dedupStr (
-      (if loadPanics || cKind || cNil || cDrill then ["load"] else []) ++
-      (if cNullM then ["validate", "post"] else []) ++
-      (if cNullW || cEnc || cUnres || cUnwalked then ["post"] else []) ++
-      (if cEmpty then ["crash:IsEmpty"] else []) ++ (if cComp then ["crash:visit"] else []) ++
-      (if cCb then ["crash:deref", "crash:validate"] else []))
+    let hit := o.hit
+    let excl := o.excl
+    let abnormal := o.abnormal
     let tags := b.table.map (fun r => tgtTag r.2)
-    let textOf (h : Nat) : String := ((b.names.find? (·.1 == h)).map (·.2)).getD ""
     let branches := dedupStr (
       (if refs.isEmpty then [] else ["refs"]) ++ tags ++
-      (if refs.any (fun r => !(textOf r.1).startsWith "#") then ["ref.external"] else []) ++
+      (if refs.any (fun r => !(b.textOf r.1).startsWith "#") then ["ref.external"] else []) ++
       ["load." ++ resStr load] ++
-      (match load with | .ok st => (if st.inprog.isEmpty then [] else ["inprog.leak"]) | _ => []) ++
+      (match load with
+       | .ok st => (if st.inprog.isEmpty then [] else ["inprog.leak"]) ++
+                   (if (refIdsOfs b.roots).any (fun id => !st.value.contains id) then ["ref.unresolved"] else []) ++
+                   (if (refIdsOfs b.roots).any (fun id => !st.value.contains id && !st.pathed.contains id) then ["ref.pathless"] else [])
+       | _ => []) ++
+      (match hit with | some h => ["intern.hit", if isExternalRef h.text false then "intern.hit.text" else "intern.hit.parent"] | none => []) ++
+      (if refs.any (fun r => refs.any (fun s => s.1 == r.1 && s.2.1 != r.2.1)) then ["text.kinds"] else []) ++
       (if refs.any (fun r => refs.any (fun s => s.1 == r.1 && (s.2.1 != r.2.1 || s.2.2 != r.2.2))) then ["text.shared"] else []) ++
       (if !files.isEmpty then ["files"] else []) ++ (if ds.ext then ["ext.on"] else []) ++
       (if entry != "data" then ["entry." ++ entry] else []) ++
@@ -86,7 +73,7 @@ def handle (j : Json) : Json :=
       (match j.getObjVal? "raw64" with | .ok _ => ["raw.parsed"] | _ => []) ++
       excl.map (fun e => "excl." ++ e))
     jobj [("model", jobj [("load", Json.str (resStr load)), ("abnormal", jstrs abnormal)]),
-          ("spec", jobj [("abnormal", jstrs [])]),
+          ("spec", jobj [("abnormal", jstrs specAbnormal)]),
           ("excl", jstrs excl), ("branches", jstrs branches)]
 
 end KinModel.Drv.C20
